@@ -796,6 +796,98 @@ class Tab:
         if not nbad:
             self.ok("T20", n, "%d (pentagon, neighbour direction, leading digit) instances: the _NONPOLAR/_POLAR reverse tables undo the forward unfolding of an index on a pentagon base cell" % n)
 
+    # ------------------------------------------------------------- T21
+    def _linear(self, f, o, depth=0):
+        """integer expression over the loads of the parameter's fields i, j, k as a coefficient triple (+ constant), else None"""
+        if depth > 12:
+            return None
+        if o[0] == "c":
+            return (0, 0, 0, ir.cint_signed(o))
+        if o[0] != "i":
+            return None
+        i = f.insts[o[1]]
+        if i.op == "load":
+            base, path = ir.field_path(self.m, f, i.ops[0])
+            if base == ("a", 0) and len(path) == 1 and path[0][0] == "f" and path[0][1] == "CoordIJK" and path[0][2] in ("i", "j", "k"):
+                k = "ijk".index(path[0][2])
+                return tuple(1 if x == k else 0 for x in range(3)) + (0,)
+            return None
+        if i.op in ("add", "sub"):
+            a, b = self._linear(f, i.ops[0], depth + 1), self._linear(f, i.ops[1], depth + 1)
+            if a is None or b is None:
+                return None
+            sg = 1 if i.op == "add" else -1
+            return tuple(x + sg * y for x, y in zip(a, b))
+        if i.op in ("mul", "shl"):
+            a = self._linear(f, i.ops[0], depth + 1)
+            c = i.ops[1]
+            if a is None or c[0] != "c":
+                return None
+            k = ir.cint_signed(c) if i.op == "mul" else (1 << c[1])
+            return tuple(x * k for x in a)
+        if i.op in ("sext", "zext", "trunc", "freeze"):
+            return self._linear(f, i.ops[0], depth + 1)
+        return None
+
+    def T21(self):
+        """the aperture-7 parent kernels invert the child kernels: the linear forms _upAp7(r)[Checked] round (from the IR) times the constant
+        vectors of _downAp7(r) give 7 * identity in IJ coordinates, and the scale constant is 1/7"""
+        n = nbad = 0
+        for up, down in (("_upAp7", "_downAp7"), ("_upAp7Checked", "_downAp7"), ("_upAp7r", "_downAp7r"), ("_upAp7rChecked", "_downAp7r")):
+            f = self.m.fn(up)
+            vecs = tables.kernel_vectors(self.m, self.T, down)
+            rows = {}
+            for st in f.all_insts():
+                if st.op != "store":
+                    continue
+                base, path = ir.field_path(self.m, f, st.ops[1])
+                if base != ("a", 0) or len(path) != 1 or path[0][2] not in ("i", "j"):
+                    continue
+                v = st.ops[0]
+                chain = []
+                while v[0] == "i" and f.insts[v[1]].op in ("trunc", "fptosi", "sext"):
+                    v = f.insts[v[1]].ops[0]
+                if v[0] != "i" or f.insts[v[1]].op != "call" or f.insts[v[1]].callee not in ("lround", "llround", "lrint"):
+                    raise AnalysisBroken("%s: component %s is not a rounded value" % (up, path[0][2]))
+                fm = f.insts[v[1]].ops[0]
+                fm = f.insts[fm[1]] if fm[0] == "i" else None
+                if fm is None or fm.op not in ("fmul", "fdiv"):
+                    raise AnalysisBroken("%s: rounded value is not a scaled integer expression" % up)
+                a, b = fm.ops
+                if fm.op == "fmul" and a[0] == "f":
+                    a, b = b, a
+                if b[0] != "f" or a[0] != "i" or f.insts[a[1]].op != "sitofp":
+                    raise AnalysisBroken("%s: scale is not a constant times an integer expression" % up)
+                scale = float(b[1]) if fm.op == "fmul" else 1.0 / float(b[1])
+                lin = self._linear(f, f.insts[a[1]].ops[0])
+                if lin is None:
+                    raise AnalysisBroken("%s: integer expression is not linear in the fields i, j, k" % up)
+                rows[path[0][2]] = (lin, scale, st)
+            if set(rows) != {"i", "j"}:
+                raise AnalysisBroken("%s: stores to both i and j of the form round(linear * c) not found" % up)
+            for comp, (lin, scale, st) in sorted(rows.items()):
+                n += 1
+                if abs(scale * 7.0 - 1.0) > 1e-15:
+                    nbad += 1
+                    self.bad("T21", "%s:%s:scale" % (up, comp), "%s scales component %s by %.17g; the aperture-7 parent needs 1/7" % (up, comp, scale), st.where())
+                    continue
+                if lin[3] != 0:
+                    nbad += 1
+                    self.bad("T21", "%s:%s:offset" % (up, comp), "%s adds the constant %d before scaling component %s" % (up, lin[3], comp), st.where())
+                    continue
+                for d, U in enumerate(([1, 0, 0], [0, 1, 0], [0, 0, 1])):
+                    child = lin_apply = [sum(U[c] * vecs[c][x] for c in range(3)) for x in range(3)]      # down(U)
+                    got = sum(lin[x] * child[x] for x in range(3))
+                    ij = (U[0] - U[2], U[1] - U[2])
+                    want = 7 * (ij[0] if comp == "i" else ij[1])
+                    if got != want:
+                        nbad += 1
+                        self.bad("T21", "%s:%s" % (up, comp), "%s computes component %s as round((%d*i %+d*j %+d*k)/7); applied to %s of the unit vector %s = %s this gives %d/7, but the parent of a "
+                                 "centre child must be the cell itself (%d/7)" % (up, comp, lin[0], lin[1], lin[2], down, U, child, got, want), st.where())
+                        break
+        if not nbad:
+            self.ok("T21", n, "the linear forms of _upAp7/_upAp7r (and the overflow-checked variants) times the constant vectors of _downAp7/_downAp7r give 7*identity in IJ coordinates, scale 1/7")
+
     # ------------------------------------------------------------- T15 per-resolution constant tables
     def T15(self):
         """average area / edge tables are consistent between their units"""
@@ -957,7 +1049,7 @@ def macro_values(cfg, repo=None):
     return floats, ints
 
 
-ALL = ["T1", "T2", "T3", "T4", "T5", "T6", "T7", "T8", "T9", "T10", "T11", "T12", "T13", "T14", "T15", "T16", "T17", "T18", "T19", "T20"]
+ALL = ["T1", "T2", "T3", "T4", "T5", "T6", "T7", "T8", "T9", "T10", "T11", "T12", "T13", "T14", "T15", "T16", "T17", "T18", "T19", "T20", "T21"]
 
 
 def run(ctx, m, cfg, rels, only_keys=None):
